@@ -1628,6 +1628,8 @@ void run_fit(const uint64_t seed, const long scenario, const bool thorough, cons
         cfg.rounds    = 10;
         cfg.epsilon   = 1e-10;
         cfg.max_evals = 300;
+        if (std::getenv("C18_SHRINK")) cfg.shrinkage = std::getenv("C18_SHRINK"); //@@TMP
+        if (std::getenv("C18_SUBS")) { cfg.subsample = std::getenv("C18_SUBS"); } //@@TMP
     }
     const auto src = make_regression_source(rng, n, nsc, cfg.kind < 4 ? static_cast<size_t>(rng.range(0, 1)) : static_cast<size_t>(rng.range(1, 2)), cfg.kind < 4 ? 0.05 : 0.2);
     const auto ctx = seedctx("fit", scenario) + " " + cfg_text(cfg) + " " + src.desc + " delay=" + std::to_string(delay);
